@@ -1,0 +1,38 @@
+//go:build verif
+// +build verif
+
+package controllers
+
+import (
+	"context"
+
+	proxyv1alpha1 "github.com/kubewharf/kubegateway/pkg/apis/proxy/v1alpha1"
+	proxyinformers "github.com/kubewharf/kubegateway/pkg/client/informers/proxy/v1alpha1"
+	"github.com/kubewharf/kubegateway/pkg/clusters"
+	"github.com/kubewharf/kubegateway/pkg/ratelimiter/clientsets"
+	"github.com/kubewharf/kubegateway/pkg/syncqueue"
+)
+
+// VerifNewUpstreamClusterController builds a controller exactly like
+// NewUpstreamClusterController but with an injected limiter ClientSets and
+// without registering the informer event handler, so a harness can deliver
+// events in any legal order through VerifSync. Verification-only hook.
+func VerifNewUpstreamClusterController(upstreamclusterinformer proxyinformers.UpstreamClusterInformer, rateLimiter string, clientSets clientsets.ClientSets) *UpstreamClusterController {
+	ctx, cancel := context.WithCancel(context.Background())
+	m := &UpstreamClusterController{
+		ctx:         ctx,
+		cancel:      cancel,
+		lister:      upstreamclusterinformer.Lister(),
+		synced:      upstreamclusterinformer.Informer().HasSynced,
+		Manager:     clusters.NewManager(),
+		rateLimiter: rateLimiter,
+		clientSets:  clientSets,
+	}
+	m.queue = syncqueue.NewPassthroughSyncQueue(proxyv1alpha1.SchemeGroupVersion.WithKind("UpstreamCluster"), m.syncUpstreamCluster)
+	return m
+}
+
+// VerifSync calls the controller's sync handler for one delivered object.
+func (m *UpstreamClusterController) VerifSync(obj interface{}) (syncqueue.Result, error) {
+	return m.syncUpstreamCluster(obj)
+}
